@@ -330,6 +330,9 @@ func c15Judge(c c15Config, seq string) (bad, kind string) {
 func c15Configs(thorough bool) []c15Config {
 	var out []c15Config
 	maxN := 4
+	if thorough {
+		maxN = 5
+	}
 	phases := []string{"before-write", "after-status", "after-body", "after-next", "unresolved-dependency"}
 	values := []string{"string", "error", "runtime", "struct", "abort", "nil-error-pointer", "panicking-stringer"}
 	styles := []string{"use", "route", "group"}
@@ -366,11 +369,30 @@ func c15Run(r *core.Run) {
 		r.SetBudget(10 * time.Minute)
 	}
 	cfgs := c15Configs(r.Thorough())
-	seqs := []string{"P", "PN", "NP", "PP", "PNP", "PPN", "NPN", "PPP", "NNP", "PNN", "PQ", "QP", "PQP", "QQ", "PQN"}
+	// thorough: every request sequence of up to three requests over {panicking, normal, panicking with the other kind}
+	var seqs []string
+	for _, a := range []string{"P", "N", "Q"} {
+		seqs = append(seqs, a)
+		for _, b := range []string{"P", "N", "Q"} {
+			seqs = append(seqs, a+b)
+			for _, c := range []string{"P", "N", "Q"} {
+				seqs = append(seqs, a+b+c)
+			}
+		}
+	}
+	{
+		var keep []string
+		for _, q := range seqs {
+			if strings.ContainsAny(q, "PQ") {
+				keep = append(keep, q)
+			}
+		}
+		seqs = keep
+	}
 	if !r.Thorough() {
 		seqs = []string{"P", "PN", "PPN", "NPN", "PNP", "PQ", "QPQ"}
 	}
-	r.Rule = "engine E: stacks of 2..4 handlers with Recovery at every position, logging middleware before it, pass-through handlers (with and without their own Next()) between it and the panicking handler at every later position; panic phase {before any write, after a status, after body bytes, after Next() returned, unresolved dependency} x value {string, error, runtime error, struct, http.ErrAbortHandler, typed-nil error pointer, value whose String() panics} x registration style {application middleware, route handlers, middleware+group} x environment {development, production, test} x request sequences over {panicking, normal}; oracle: nothing escapes, status 500 iff nothing had been sent, detail in the body iff development, outer middleware completes, normal requests equal a fresh instance; non-trivial = sequence with >=2 requests or a panic after something was written"
+	r.Rule = "engine E: stacks of 2..4 (thorough 5) handlers with Recovery at every position, logging middleware before it, pass-through handlers (with and without their own Next()) between it and the panicking handler at every later position; panic phase {before any write, after a status, after body bytes, after Next() returned, unresolved dependency} x value {string, error, runtime error, struct, http.ErrAbortHandler, typed-nil error pointer, value whose String() panics} x registration style {application middleware, route handlers, middleware+group} x environment {development, production, test} x request sequences over {panicking, normal}; oracle: nothing escapes, status 500 iff nothing had been sent, detail in the body iff development, outer middleware completes, normal requests equal a fresh instance; non-trivial = sequence with >=2 requests or a panic after something was written"
 	r.Bounds["configs"] = len(cfgs)
 	r.Bounds["sequences"] = seqs
 	r.Assumptions = []string{"panic(nil) is outside the statement ('any non-nil value')", "environments are process-global: the three environments run as sequential phases"}
